@@ -125,6 +125,28 @@ def evaluate(ctx, scs, tag):
     return obs, results, crashed
 
 
+def size_was_solved(res, name):
+    """did the size leaf of list `name` occur (as a variable) in a solver instance that was followed by another one - i.e. one
+    whose solve completed - during this failed call?"""
+    paths = [tuple(p) for p in res.get("leaves_before") or []]       # (field models are numbered before the call)
+    if (name, "size") not in paths:
+        return True
+    sid = paths.index((name, "size"))
+    insts, cur = [], None
+    for ev in res.get("log") or []:
+        if ev[0] == "new":
+            if cur is not None:
+                insts.append(cur)
+            cur = []
+        elif ev[0] in ("assume", "assert") and cur is not None:
+            cur.append(ev[1])
+    completed = insts          # the last instance (not appended) is the failing one
+
+    def has(t):
+        return isinstance(t, list) and ((len(t) > 1 and t[0] == "fvar" and t[1] == sid) or any(has(x) for x in t[1:]))
+    return any(has(t) for inst in completed for t in inst)
+
+
 def expected_lists(sc, obs_ops):
     """Python-level bookkeeping of what every list must expose after each operation (append / clear / assign reduce the
     value modulo 2^w, signed re-interpretation; a fixed-size list keeps its length over a call)"""
@@ -161,6 +183,11 @@ def expected_lists(sc, obs_ops):
                     elif f.get("rand") and len(v["iter"]) == len(exp[name]):
                         exp[name] = list(v["iter"])
                     elif f.get("randsz"):
+                        # a rand set solved before the failing one has been written; a list whose size never reached a solver
+                        # instance that got past its hard constraints must be left as it was (content and length)
+                        if not isinstance(v["iter"], str) and v["iter"] != exp[name] and not size_was_solved(res, name):
+                            problems.append((oi, "a failed call changed random-size list %s although its size was never solved for: %s -> %s"
+                                             % (name, exp[name], v["iter"])))
                         exp[name] = list(v["iter"])
                     continue
                 if not f.get("randsz") and v["len"] != len(exp[name]):
